@@ -28,6 +28,8 @@ pub struct Monitor {
     card_busy: bool,
     pub crc_on: bool,
     seen_cmd0: bool,
+    /// the last CMD0 was answered with "idle" (0x01)
+    cmd0_acked: bool,
     seen_cmd8: bool,
     v2: bool,
     ready: bool,
@@ -65,6 +67,7 @@ impl Monitor {
             card_busy: false,
             crc_on: false,
             seen_cmd0: false,
+            cmd0_acked: false,
             seen_cmd8: false,
             v2: false,
             ready: false,
@@ -104,6 +107,9 @@ impl Monitor {
         if !self.seen_cmd0 && cmd != 0 {
             self.bad("order/first-command-not-cmd0", format!("CMD{} sent before CMD0", cmd));
         }
+        if cmd != 0 && self.seen_cmd0 && !self.cmd0_acked {
+            self.bad("order/command-before-reset-acknowledged", format!("CMD{} sent although the card has not answered the last CMD0 with 'idle'", cmd));
+        }
         if cmd == 41 && !self.seen_cmd8 {
             self.bad("order/acmd41-before-cmd8", "ACMD41 sent before CMD8".into());
         }
@@ -127,6 +133,7 @@ impl Monitor {
         }
         if cmd == 0 {
             self.seen_cmd0 = true;
+            self.cmd0_acked = false;
             self.seen_cmd8 = false;
             self.ready = false;
             self.cmd58_after_ready = false;
@@ -140,6 +147,7 @@ impl Monitor {
         self.prev = Some((a.cmd, r1));
         let ok = r1 & 0xFE == 0;
         match a.cmd {
+            0 if r1 == 0x01 => self.cmd0_acked = true,
             8 => {
                 self.seen_cmd8 = true;
                 if r1 & 0x04 == 0 {
